@@ -205,7 +205,7 @@ func (it *Interp) ctxState(c *CtxObj) bool {
 			return true
 		}
 	}
-	if c.external {
+	if c.external && !it.job.CancelOnlyIdle {
 		if it.branch(it.fresh("ctx_cancel_"+c.label, SBool), "ctxcancel") {
 			it.ctxCancel(c, "canceled")
 			return true
